@@ -15,6 +15,7 @@ Where the code that exists violates the property the model is the correct behavi
 `PMode.code`).
 -/
 import CtrlVerif.Lemmas.Config
+import CtrlVerif.Model.Memo
 
 namespace CtrlVerif.C19
 
@@ -343,5 +344,75 @@ example : (prun .fixed ⟨[[("a", "~i1")], [("a", "~i2"), ("b", "~i3")]], [("b",
 example : legacyPre092 1 9 0 = true ∧ legacyPre09 1 9 = false ∧ legacyPre092 0 10 1 = false := by decide
 
 end Examples
+
+/-! ## objects that keep the last computation between calls (`OptimalControlProblem`)
+
+The correspondence compares every call on a problem object that has a call history with the same
+call on a freshly built identical object.  The theorems say why that is the right oracle: a cache
+whose hit test implies "same value" can never be observed, whatever was called before, and a hit test
+on a *part* of the key (the coefficient vector without the initial state) can. -/
+
+section Memo
+open CtrlVerif.Memo
+
+variable {κ α : Type}
+
+theorem memo_empty_sound (f : κ → α) : Sound f (Cache.empty : Cache κ α) := by
+  intro k v h; cases h
+
+/-- one call through a sound cache returns the value of a fresh computation and leaves a sound cache -/
+theorem memo_call_spec (same : κ → κ → Bool) (f : κ → α) (hsame : ∀ a b, same a b = true → f a = f b)
+    (c : Cache κ α) (hc : Sound f c) (k : κ) :
+    (call same f c k).1 = f k ∧ Sound f (call same f c k).2 := by
+  unfold call
+  cases h : c.last with
+  | none =>
+    refine ⟨rfl, ?_⟩
+    intro k2 v2 h2
+    simp at h2
+    obtain ⟨rfl, rfl⟩ := h2; rfl
+  | some p =>
+    obtain ⟨k', v⟩ := p
+    by_cases hs : same k' k = true
+    · simp only [hs, if_true]
+      exact ⟨(hc k' v h).trans (hsame _ _ hs), hc⟩
+    · simp only [hs]
+      refine ⟨rfl, ?_⟩
+      intro k2 v2 h2
+      simp at h2
+      obtain ⟨rfl, rfl⟩ := h2; rfl
+
+theorem memo_run_sound (same : κ → κ → Bool) (f : κ → α) (hsame : ∀ a b, same a b = true → f a = f b)
+    (hist : List κ) : ∀ c : Cache κ α, Sound f c → Sound f (run same f c hist) := by
+  induction hist with
+  | nil => intro c hc; exact hc
+  | cons k ks ih => intro c hc; exact ih _ (memo_call_spec same f hsame c hc k).2
+
+/-- **memo_history_independent** — if a cache hit implies that the stored key and the present key
+have the same value (in particular: if the test compares the whole key), then after *any* history
+of calls on the object a call returns exactly what it returns on a freshly built object. -/
+theorem memo_history_independent (same : κ → κ → Bool) (f : κ → α)
+    (hsame : ∀ a b, same a b = true → f a = f b) (hist : List κ) (k : κ) :
+    (call same f (run same f Cache.empty hist) k).1 = (call same f Cache.empty k).1 := by
+  rw [(memo_call_spec same f hsame _ (memo_run_sound same f hsame hist _ (memo_empty_sound f)) k).1,
+      (memo_call_spec same f hsame _ (memo_empty_sound f) k).1]
+
+/-- **memo_partial_key_counterexample** — a hit test on the coefficient vector alone (the key is the
+pair (coefficients, initial state)): after one call from another initial state the object returns the
+value of that earlier call. -/
+theorem memo_partial_key_counterexample :
+    ∃ (f : Nat × Nat → Nat) (hist : List (Nat × Nat)) (k : Nat × Nat),
+      (call (fun a b => a.1 == b.1) f (run (fun a b => a.1 == b.1) f Cache.empty hist) k).1
+        ≠ (call (fun a b => a.1 == b.1) f Cache.empty k).1 :=
+  ⟨fun p => p.1 + p.2, [(1, 1)], (1, 2), by decide⟩
+
+-- non-vacuity: the full-key test satisfies the hypothesis, and a hit really happens in the history
+example : (∀ a b : Nat × Nat, (a == b) = true → (fun p : Nat × Nat => p.1 + p.2) a = (fun p => p.1 + p.2) b) ∧
+    (call (· == ·) (fun p : Nat × Nat => p.1 + p.2) (run (· == ·) (fun p => p.1 + p.2) Cache.empty [(1, 1), (1, 2)]) (1, 2)).2.last
+      = some ((1, 2), 3) ∧
+    (call (· == ·) (fun p : Nat × Nat => p.1 + p.2) (run (· == ·) (fun p => p.1 + p.2) Cache.empty [(1, 1)]) (1, 2)).1 = 3 :=
+  ⟨fun a b h => by rw [eq_of_beq h], by decide, by decide⟩
+
+end Memo
 
 end CtrlVerif.C19
